@@ -29,7 +29,7 @@ def run(drv, prop, tier, seed, scale, bins, t0):
     all_viol = []
     runs = {}
     # (1) the hooked internal fma against the exactly rounded result, in every configuration
-    for cfg in ('std', 'nostd', 'soft', 'fma'):
+    for cfg in ('std', 'nostd', 'soft', 'fma', 'nostd_fma'):
         j, err = drv.run_inproc(bins[cfg], prop, tier, seed, scale if cfg == 'std' else scale * 0.5, cfg)
         if j is None:
             inconclusive.append('%s: %s' % (cfg, err))
@@ -42,20 +42,20 @@ def run(drv, prop, tier, seed, scale, bins, t0):
     # (2) stream differential: same seeded workload, three builds, block hashes diffed
     nsh = 16
     per = int((300_000 if tier == 'quick' else 30_000_000) * scale)
-    stream_stats = {'shards': nsh, 'events_per_shard': per, 'blocks_compared': 0, 'configs': ['std', 'nostd', 'soft', 'fma'], 'mismatching_blocks': 0}
+    stream_stats = {'shards': nsh, 'events_per_shard': per, 'blocks_compared': 0, 'configs': ['std', 'nostd', 'soft', 'fma', 'nostd_fma'], 'mismatching_blocks': 0}
 
     def job(cfg, sh, extra=()):
         return _stream([bins[cfg], 'stream', prop, '--seed', str(seed), '--shard', str(sh), '--events', str(per)] + list(extra))
 
     with ThreadPoolExecutor(16) as ex:
-        futs = {(cfg, sh): ex.submit(job, cfg, sh) for cfg in ('std', 'nostd', 'soft', 'fma') for sh in range(nsh)}
+        futs = {(cfg, sh): ex.submit(job, cfg, sh) for cfg in ('std', 'nostd', 'soft', 'fma', 'nostd_fma') for sh in range(nsh)}
         res = {k: f.result() for k, f in futs.items()}
     for sh in range(nsh):
         ref = res[('std', sh)]
         if ref[0] != 0 or ref[3] is None:
             inconclusive.append('stream std shard %d failed: %s' % (sh, ref[4]))
             continue
-        for cfg in ('nostd', 'soft', 'fma'):
+        for cfg in ('nostd', 'soft', 'fma', 'nostd_fma'):
             oth = res[(cfg, sh)]
             if oth[0] != 0 or oth[3] is None:
                 inconclusive.append('stream %s shard %d failed: %s' % (cfg, sh, oth[4]))
@@ -148,7 +148,7 @@ def run(drv, prop, tier, seed, scale, bins, t0):
         else:
             matched.setdefault(k['id'], [k, 0, v])
             matched[k['id']][1] += 1
-    stream_events = per * nsh * 4
+    stream_events = per * nsh * 5
     evals = sum(j['evaluations'] for j in runs.values()) + stream_events + miri_stats['events']
     distinct = (runs['std']['distinct_nontrivial'] if 'std' in runs else 0) + per * nsh
     samples = (runs['std']['samples'][:3] if 'std' in runs else [])
@@ -187,14 +187,14 @@ def run(drv, prop, tier, seed, scale, bins, t0):
         for r in inconclusive:
             log('INCONCLUSIVE property=%s reason=%s' % (prop, r))
         rc = 2
-    log('%s %s seed=%d: %d events (fma hook x3 cfgs, %d stream events x3 cfgs in %d blocks, %d Miri events), %d unmatched violation record(s), %.1fs'
+    log('%s %s seed=%d: %d events (fma hook + stream in 5 builds, %d stream events per build, %d blocks compared, %d Miri events), %d unmatched violation record(s), %.1fs'
         % (prop, tier, seed, evals, per * nsh, stream_stats['blocks_compared'], miri_stats['events_compared'], len(unmatched), time.time() - t0))
     return rc
 
 
 def replay(drv, v, path):
     """Re-execute the recorded event in both configurations on the current tree."""
-    cfgs = ['std', v['cfg']] if v['cfg'] in ('nostd', 'soft', 'fma') else ['std']
+    cfgs = ['std', v['cfg']] if v['cfg'] in ('nostd', 'soft', 'fma', 'nostd_fma') else ['std']
     bins = {}
     for cfg in cfgs:
         b, err = drv.build(cfg)
